@@ -328,9 +328,20 @@ def globalstate(prog, an):
             if e.chain:
                 continue
             if e.path.root[0] == 'global' and e.path.root[1] not in ('logger', 'logging', 'log_configs'):
+                # a name of an ENCLOSING function (a closure variable of a nested helper) is per-call state, and a name
+                # that is not bound at module level at all cannot be a module-level object
+                nm_ = e.path.root[1]
+                if '.' in f.short and f.cls is None or (f.cls is not None and f.short.count('.') > 1):
+                    if not any(isinstance(st_, (ast.Assign, ast.AnnAssign)) and any(
+                            isinstance(t_, ast.Name) and t_.id == nm_ for t_ in (st_.targets if isinstance(st_, ast.Assign) else [st_.target]))
+                            for st_ in f.module.tree.body):
+                        continue
                 out.append((f, e.src or f.node, f"'{e.text}' mutates the module-level object '{e.path.root[1]}'"))
+        nested_def = ('.' in f.short and f.cls is None) or (f.cls is not None and f.short.count('.') > 1)
         for d in f.node.decorator_list:
             txt = stmt_text(d)
+            if nested_def:
+                continue        # a cache decorating a function defined inside another one is re-created per call
             if 'lru_cache' in txt or txt.split('(')[0].split('.')[-1] == 'cache':
                 out.append((f, d, f"'@{txt}' memoises {f.short}: the result is replayed even when the files / "
                                   f"objects behind the same arguments have changed"))
